@@ -186,9 +186,7 @@ pub fn run(input: &Value) -> Option<Value> {
             chk("eq2", "true".to_string());
             chk("em", s.is_empty().to_string());
             chk("cc", format!("{}{}{}", s, t, u));
-            if !t.is_empty() {
-                chk("rp", s.replace(t, u));
-            }
+            chk("rp", s.replace(t, u));
             chk("tr", s.trim().to_string());
             chk("ts", s.trim_start().to_string());
             chk("te", s.trim_end().to_string());
